@@ -322,9 +322,31 @@ func (v *Env) eval(x Expr) *Val {
 				panic("contract: resultof(\"callee#n\")")
 			}
 			if r, ok := e.siteResults[ts.S]; ok {
+				if len(x.Args) == 2 {
+					// resultof("site#n", i): the i-th result of a multi-valued call
+					idx, ok := x.Args[1].(*ENum)
+					tt, isT := r.typ.(*types.Tuple)
+					if !ok || !isT || int(idx.V) >= tt.Len() {
+						panic("contract: resultof index")
+					}
+					lo, hi := tupleRange(tt, int(idx.V))
+					return &Val{typ: tt.At(int(idx.V)).Type(), c: r.c[lo:hi]}
+				}
 				return r
 			}
 			panic("contract: no call site " + ts.S + " before this point")
+		case "hdr":
+			// hdr(h, "Key"): what h.Get("Key") returns in this state
+			h, k := v.eval(x.Args[0]), v.eval(x.Args[1])
+			mi := mapInfoOf(h.typ)
+			if !mi.ok {
+				panic("contract: hdr() on a non-header")
+			}
+			ck := e.canon(k.c[0])
+			has := e.mapHas(v.st, mi, h.c[0], ck)
+			val := e.mapGet(v.st, mi, h.c[0], ck)
+			first := sel(e.arr(v.st, "C|string|", "Str"), app("elem", val.c[0], val.c[1]))
+			return &Val{typ: types.Typ[types.String], c: []string{ite(and(has, app(">", val.c[2], "0")), first, "str!empty")}}
 		case "cur":
 			c := *v
 			c.wantCur = true
